@@ -259,6 +259,17 @@ def analyse():
                     isinstance(v, ast.Call) and isinstance(v.func, ast.Name) and v.func.id in (
                         'list', 'dict', 'set', 'WeakKeyDictionary', 'WeakSet', 'WeakValueDictionary', 'OrderedDict', 'defaultdict',
                         'deque', 'singledispatch'))
+                # a module-level iterator / generator is state too: every consumer advances it (seeded C19_3: a hoisted
+                # itertools.cycle whose phase carried over from one call to the next)
+                ITER = {'iter', 'cycle', 'count', 'repeat', 'chain', 'map', 'filter', 'zip', 'enumerate', 'islice', 'reversed', 'tee',
+                        'accumulate', 'starmap', 'takewhile', 'dropwhile', 'zip_longest', 'product', 'permutations', 'combinations'}
+                fname = None
+                if isinstance(v, ast.Call):
+                    fname = v.func.id if isinstance(v.func, ast.Name) else (v.func.attr if isinstance(v.func, ast.Attribute) else None)
+                if isinstance(v, ast.GeneratorExp) or fname in ITER:
+                    ob('module-state', mod, '', n.lineno, t.id, 'refuted',
+                       'module-level iterator / generator: consuming it is hidden state shared by all calls', line_of(n))
+                    continue
                 if mutable:
                     if t.id in gframe:
                         ob('module-state', mod, '', n.lineno, t.id, 'discharged', 'declared frame location: ' + gframe[t.id])
